@@ -9,6 +9,7 @@ import (
 	"strconv"
 	"strings"
 	"sync"
+	"time"
 
 	simwire "perun.network/go-perun/backend/sim/wire"
 	"perun.network/go-perun/channel"
@@ -323,6 +324,8 @@ type world struct {
 	trace bool
 	step  int
 	ctx   context.Context
+	// doneCtx>0: every doneCtx-th operation is called with a context that is already done
+	doneCtx int
 
 	inner   sortedkv.Database
 	fdb     *FaultDB
@@ -365,6 +368,7 @@ func newWorld(sc *kernel.Scenario, res *kernel.Result, trace, check bool) *world
 	if w.store != storeLDB {
 		w.store = storeMem
 	}
+	w.doneCtx = int(sc.Cfg("done_ctx", 0))
 	w.inner, w.cleanup = newLiveStore(w.store)
 	w.fdb = &FaultDB{inner: w.inner, failAt: map[int]struct{}{}}
 	if w.mode == modeWriteErr {
@@ -519,6 +523,15 @@ func (w *world) reversion(c *chn, s *channel.State, st *kernel.Step) {
 // applicable=false means the step does not apply here and was skipped.
 func (w *world) exec(c *chn, op string, st *kernel.Step) (err error, pan any, applicable bool) {
 	ctx := w.ctx
+	if n := w.doneCtx; n > 0 && w.check && w.step%n == n-1 {
+		dctx, cancel := context.WithCancel(w.ctx)
+		if w.step%2 == 0 {
+			dctx, cancel = context.WithDeadline(w.ctx, time.Unix(1, 0))
+		}
+		cancel()
+		ctx = dctx
+		w.res.Count("fault.caller-context-already-done", 1)
+	}
 	pers := c.created
 	run := func(bare, persisted func() error) {
 		if pers {
